@@ -150,7 +150,12 @@ impl<'tcx> Cx<'tcx> {
             Rvalue::BinaryOp(op, ab) => format!("{{\"bin\":{},\"a\":{},\"b\":{}}}", esc(&format!("{:?}", op)), self.operand(body, &ab.0), self.operand(body, &ab.1)),
             Rvalue::UnaryOp(op, a) => format!("{{\"un\":{},\"a\":{}}}", esc(&format!("{:?}", op)), self.operand(body, a)),
             Rvalue::Cast(k, a, ty) => format!("{{\"cast\":{},\"a\":{},\"to\":{}}}", esc(&format!("{:?}", k)), self.operand(body, a), esc(&format!("{:?}", ty))),
-            Rvalue::Discriminant(p) => format!("{{\"discr\":{}}}", self.place(body, p)),
+            Rvalue::Discriminant(p) => {
+                // number of variants of the discriminated enum: lets the analyses turn "not variant k" into the other variant
+                let ty = p.ty(&body.local_decls, self.tcx).ty;
+                let nv = match ty.kind() { ty::TyKind::Adt(adt, _) if adt.is_enum() => adt.variants().len() as i64, _ => -1 };
+                format!("{{\"discr\":{},\"nvariants\":{}}}", self.place(body, p), nv)
+            }
             Rvalue::Repeat(o, n) => format!("{{\"repeat\":{},\"n\":{}}}", self.operand(body, o), esc(&format!("{}", n))),
             Rvalue::Aggregate(kind, ops) => {
                 let k = match &**kind {
